@@ -39,8 +39,12 @@ func getAdditionalPluginRepositoryURLs() ([]string, error) {
 		return nil, fmt.Errorf("couldn't read plugin repositories directory: %w", err)
 	}
 
-	out := make([]string, len(entries))
+	out := make([]string, 0, len(entries))
 	for i := range entries {
+		if strings.HasPrefix(entries[i].Name(), ".") {
+			// Temporary file left behind by an interrupted write.
+			continue
+		}
 		data, err := os.ReadFile(filepath.Join(repositoriesDir, entries[i].Name()))
 		if err != nil {
 			return nil, fmt.Errorf("couldn't read plugin repository file: %w", err)
@@ -49,7 +53,7 @@ func getAdditionalPluginRepositoryURLs() ([]string, error) {
 		if err := json.Unmarshal(data, &entry); err != nil {
 			return nil, fmt.Errorf("couldn't decode plugin repository file: %w", err)
 		}
-		out[i] = entry.URL
+		out = append(out, entry.URL)
 	}
 
 	return out, nil
@@ -70,7 +74,7 @@ func AddRepository(ctx context.Context, url string) error {
 	if err := os.MkdirAll(repositoriesDir, 0755); err != nil {
 		return fmt.Errorf("couldn't create plugin repositories directory: %w", err)
 	}
-	if err := os.WriteFile(filepath.Join(repositoriesDir, repo.Slug), data, 0644); err != nil {
+	if err := config.WriteFileAtomic(filepath.Join(repositoriesDir, repo.Slug), data, 0644); err != nil {
 		return fmt.Errorf("couldn't write repository entry: %w", err)
 	}
 
